@@ -149,7 +149,13 @@ class MelodyDur(Stream):
         except ZeroDivisionError:
             sd = None
         two = mel + mel
-        return {"dur": F(mel.duration), "onsets": [F(t) for t in mel.get_onset_times()],
+        # a melody written bar by bar with | (two bars here: it remembers its number of bars): set_duration(d) still yields exactly d
+        try:
+            barred = mel | mel
+            bars = [int(barred.nb_bars), F(barred.duration), sum((F(x.duration) for x in barred.set_duration(F(case["d"])).notes), F(0))]
+        except (ZeroDivisionError, AssertionError):
+            bars = None
+        return {"bars": bars, "dur": F(mel.duration), "onsets": [F(t) for t in mel.get_onset_times()],
                 "aug": [F(x.duration) for x in mel.augment(F(case["k"])).notes], "set": sd,
                 "concat": F(two.duration), "repeat": F((mel * 3).duration), "stored": [F(x.duration) for x in mel.notes],
                 "pieces": [[F(mel[i].duration) for i in range(len(mel.notes))], F(mel[1:].duration), F(Melody(mel.notes[0]).duration),
@@ -176,6 +182,9 @@ class MelodyDur(Stream):
             return {"sig": "melody-augment-not-exact", "msg": str(r["aug"])}
         if d == 0 and (r["set"] is None or any(x != 0 for x in r["set"]) or len(r["set"]) != len(m)):
             return {"sig": "melody-set-duration-zero", "msg": f"set_duration(0) on {m}: {r['set']}"}
+        if r.get("bars") is not None and sum(m) != 0 and fits(d / (2 * sum(m))) and all(fits(x * (d / (2 * sum(m)))) for x in m):
+            if r["bars"][1] != 2 * sum(m) or r["bars"][2] != d:
+                return {"sig": "melody-set-duration-not-exact:bars", "msg": f"(m | m) with m = {m}: {r['bars'][0]} bars lasting {r['bars'][1]}; set_duration({d}) lasts {r['bars'][2]}"}
         if sum(m) != 0 and fits(d / sum(m)) and all(fits(x * (d / sum(m))) for x in m):
             if r["set"] is None or sum(r["set"]) != d:
                 return {"sig": "melody-set-duration-not-exact", "msg": f"asked {d}, got {None if r['set'] is None else sum(r['set'])}"}
@@ -236,6 +245,10 @@ class ScoreDur(Stream):
         # a chord without parts takes exactly the duration it is given
         d = F(case["k"], 12) + F(1, 16)
         out["empty_chord"] = [F(Chord(0, tonality=None).set_duration(d).duration), d]
+        # a chord holding a part of length 0 beside its other parts: set_duration(d) still yields exactly d (chord and score level)
+        from musiclang import Silence
+        zc = Chord(0, tonality=None)(piano__0=Melody([Note("s", 0, 0, F(1)), Note("s", 1, 0, F(1, 2))]), violin__0=Melody([Silence(F(0))]))
+        out["zero_part"] = [F(zc.set_duration(F(case["k"])).duration), F(case["k"])]
         return out
 
     def term(self, case, r):
@@ -262,6 +275,8 @@ class ScoreDur(Stream):
             return {"sig": "chord-augment-not-per-note", "msg": f"augment({k}): {r['aug_chord']} expected {want}"}
         if r["aug_score"] is not None and r["aug_score"] != want:
             return {"sig": "score-augment-not-per-note", "msg": f"augment({k}): {r['aug_score']} expected {want}"}
+        if r.get("zero_part") and r["zero_part"][0] != r["zero_part"][1]:
+            return {"sig": "set-duration-with-a-zero-length-part", "msg": f"chord(piano = s0 + s1.e, violin = r.n).set_duration({r['zero_part'][1]}) lasts {r['zero_part'][0]}"}
         tot = sum(cd)
         if r["pickup"] is not None and r["pickup"] != [tot, 2 * tot, 2 * tot]:
             return {"sig": "score-duration-counts-pickup", "msg": f"score with config pickup: durations {r['pickup']}, chords sum to {tot}"}
